@@ -236,10 +236,18 @@ where
                     return true;
                 }
 
+                // The other type of success is that the remaining input (which, since accepting
+                // only ever happens at the end of the input, must be empty) is accepted once the
+                // reductions it demands have been performed.
+                if n.laidx != parser.lexemes.len() {
+                    return false;
+                }
+                let (_, pstack) =
+                    parser.lr_cactus(None, n.laidx, n.laidx + 1, n.pstack.clone(), &mut None);
                 matches!(
                     parser
                         .stable
-                        .action(*n.pstack.val().unwrap(), parser.next_tidx(n.laidx)),
+                        .action(*pstack.val().unwrap(), parser.next_tidx(n.laidx)),
                     Action::Accept
                 )
             },
@@ -304,10 +312,7 @@ where
             );
             if new_laidx > laidx {
                 // A repair sequence whose cost doesn't fit in a u16 is never considered.
-                let Some(cf) = n
-                    .cf
-                    .checked_add(u16::from((self.parser.token_cost)(tidx)))
-                else {
+                let Some(cf) = n.cf.checked_add(u16::from((self.parser.token_cost)(tidx))) else {
                     continue;
                 };
                 let nn = PathFNode {
@@ -365,24 +370,24 @@ where
         // only generate one shift at a time. So the adjusted rule we implement is:
         //
         //   (S, I) \rightarrow_{LR*} (S', I')
-        //   \wedge 0 <= j < 1 \wedge S != S'
-
+        //   \wedge j = 1
+        //
+        // That is, a node is only generated if the lexeme really is shifted. Reductions which the
+        // next lexeme demands, but after which it cannot be shifted, must not be kept: if the
+        // lexeme is subsequently deleted, or a token inserted in front of it, they were performed
+        // under a lookahead which the repaired input never presents at that point, and replaying
+        // the repair sequence (which reduces under the lookahead that is then current) need not
+        // end up in the same place. Reductions are thus always part of the shift, insert or
+        // accept that they prepare for.
         let laidx = n.laidx;
         let (new_laidx, n_pstack) =
             self.parser
                 .lr_cactus(None, laidx, laidx + 1, n.pstack.clone(), &mut None);
-        // A shift can leave the stack looking exactly as it did before (e.g. the next element of a
-        // left-recursive list), so a changed stack is not the right test for "something happened".
-        if new_laidx > laidx || n.pstack != n_pstack {
-            let n_repairs = if new_laidx > laidx {
-                n.repairs.child(RepairMerge::Repair(Repair::Shift))
-            } else {
-                n.repairs.clone()
-            };
+        if new_laidx > laidx {
             let nn = PathFNode {
                 pstack: n_pstack,
                 laidx: new_laidx,
-                repairs: n_repairs,
+                repairs: n.repairs.child(RepairMerge::Repair(Repair::Shift)),
                 cf: n.cf,
             };
             nbrs.push((nn.cf, nn));
